@@ -74,7 +74,13 @@ def body_step(E, B, per, f1, f2, f3, f4, fresh, op, i, s1, s2, s3, s4, base):
     op = concretize(op, 0, 9)
     i = concretize(i, 1, B)
     fin = [k + 1 for k, f in enumerate([f1, f2, f3, f4][:B]) if cbool(f)]
-    fn = mkfn(base)
+    fn0 = mkfn(base)
+    evals = []
+
+    def fn(**kw):
+        evals.append(1)
+        return fn0(**kw)
+
     with E() as env:
         crop = build_state(env, fn, B, per, fin)
         rdir = crop_dir(env) + "/results"
@@ -93,13 +99,17 @@ def body_step(E, B, per, f1, f2, f3, f4, fresh, op, i, s1, s2, s3, s4, base):
             touched = [i]
         elif op == 2:
             S = [k + 1 for k, f in enumerate([s1, s2, s3, s4][:B]) if cbool(f)]
-            if S:
-                crop.grow(tuple(S))
+            del evals[:]
+            crop.grow(tuple(S))                # the empty subset included: nothing is grown
+            if len(evals) != per * len(S):
+                return False
             touched = S
         elif op == 3:
             want_missing = [k for k in range(1, B + 1) if k not in F]
-            if want_missing:
-                crop.grow_missing()
+            del evals[:]
+            crop.grow_missing()                # also when nothing is missing: then it must do nothing
+            if len(evals) != per * len(want_missing):
+                return False                   # exactly the settings of the missing batches were evaluated
             touched = want_missing
         elif op == 4:
             calls = []
